@@ -114,11 +114,14 @@ pub fn append_rule(rule: Arc<Rule>) -> bool {
                 .or_default()
                 .insert(Arc::clone(&rule));
         }
-        Err(err) => logging::warn!(
-            "[Hot Spot append_rule] Ignoring invalid flow rule {:?}, reason: {:?}",
-            rule,
-            err
-        ),
+        Err(err) => {
+            logging::warn!(
+                "[Hot Spot append_rule] Ignoring invalid flow rule {:?}, reason: {:?}",
+                rule,
+                err
+            );
+            return false;
+        }
     }
     let mut placeholder = Vec::new();
     let new_tcs_of_res = build_resource_traffic_shaping_controller(
